@@ -1107,13 +1107,27 @@ func r12RingSizeGuards(c *core.Ctx) {
 				continue
 			}
 			cmp, ok := i.Cond.(*ssa.BinOp)
-			if !ok || cmp.Op != token.LSS || !isConstInt(cmp.Y, 3) {
+			if !ok {
 				continue
 			}
-			if !isLenOf(cmp.X, arg) {
+			// the edge on which the ring is known to have at least three vertices: len < 3 false, len <= 2 false,
+			// len >= 3 true, len > 2 true (and the mirrored spellings)
+			x, y, op := cmp.X, cmp.Y, cmp.Op
+			if _, isK := x.(*ssa.Const); isK {
+				x, y = y, x
+				op = map[token.Token]token.Token{token.LSS: token.GTR, token.GTR: token.LSS, token.LEQ: token.GEQ, token.GEQ: token.LEQ}[op]
+			}
+			bigEdge := -1
+			switch {
+			case op == token.LSS && isConstInt(y, 3), op == token.LEQ && isConstInt(y, 2):
+				bigEdge = 1
+			case op == token.GEQ && isConstInt(y, 3), op == token.GTR && isConstInt(y, 2):
+				bigEdge = 0
+			}
+			if bigEdge < 0 || !isLenOf(x, arg) {
 				continue
 			}
-			r, _ := core.Search{Fn: fn, Target: instrIs(call), Edge: func(bb *ssa.BasicBlock, k int) bool { return !(bb == b && k == 1) }}.Run()
+			r, _ := core.Search{Fn: fn, Target: instrIs(call), Edge: func(bb *ssa.BasicBlock, k int) bool { return !(bb == b && k == bigEdge) }}.Run()
 			if !r {
 				return true
 			}
@@ -1140,7 +1154,7 @@ func r12RingSizeGuards(c *core.Ctx) {
 			}
 		}
 	}
-	c.Check(R, "short-rings-are-points-and-lines/"+f.Name, f.Decl.Pos(), okShort && nshort == 2, "both short-ring exits return the ring only as points-and-lines", "a ring with fewer than 3 vertices is returned as an outer or inner ring")
+	c.Check(R, "short-rings-are-points-and-lines/"+f.Name, f.Decl.Pos(), okShort && nshort >= 1, "every short-ring exit returns the ring only as points-and-lines", "a ring with fewer than 3 vertices is returned as an outer or inner ring")
 	// closing vertex removed before the first size test: the ring handed to kmpDeduplicate is, on every path, the
 	// parameter itself or parameter[:len-1], the latter exactly when len > 1 && ring[0] == ring[len-1]; the
 	// removal may live in cleanupNewRing or in a helper it calls
